@@ -146,6 +146,17 @@
   (window (churn))
   (print (fiber/last-value fib)))
 
+(defscenario fiber-last-value-of-finished-fiber
+  # once a fiber has returned (or ended in an error) its frames are gone: last-value is the only path to the value
+  (defn run-and-drop [f] (resume f) nil)
+  (def f1 (fiber/new (fn [] (yield 1) (fresh "returned"))))
+  (run-and-drop f1) (run-and-drop f1)
+  (def f2 (fiber/new (fn [] (error (fresh-tab "raised"))) :e))
+  (run-and-drop f2)
+  (window (churn))
+  (print (fiber/status f1) " " (fiber/last-value f1))
+  (print (fiber/status f2) " " (string/format "%j" (fiber/last-value f2))))
+
 (defscenario fiber-stack-slot
   (def fib (fiber/new (fn [] (def v (fresh "fss")) (yield 1) (print v))))
   (resume fib)
